@@ -173,6 +173,22 @@ def logEntry (w : World) (rOrig rCopy : Nat) (e : Nat × String) : LogEntry :=
   | true, true => ⟨"both", labelOf o1 e.1, e.2⟩
   | false, false => ⟨"none", 0, e.2⟩
 
+/-! ### well-formedness of a model world (checked by the driver on every world it copies) -/
+
+def valOKB (no nc : Nat) : Val → Bool
+  | .obj o => decide (o < no)
+  | .cell c => decide (c < nc)
+  | _ => true
+
+def watcherOKB (no : Nat) (wt : Watcher) : Bool := decide (wt.inst < no) && decide (wt.fn.owner < no)
+
+def objOKB (no nc : Nat) (ob : Obj) : Bool :=
+  ob.values.all (fun kv => valOKB no nc kv.2) && ob.attrs.all (fun kv => valOKB no nc kv.2) &&
+  ob.watchers.all (fun kv => kv.2.all (watcherOKB no)) && ob.dyn.all (fun kv => kv.2.all (watcherOKB no))
+
+/-- every reference of every object points into the world -/
+def wfB (w : World) : Bool := w.objs.all (objOKB w.objs.length w.cells.length)
+
 /-! ### the oracle -/
 
 /-- the conclusions of C17 on one observation:
